@@ -24,7 +24,7 @@ META = {
         'sense-relation splitter raises for unknown targets, so add() rejects what these checks report; R7 for every check '
         'registered in _codes and the helpers they share, the effects that decide the reported item set (stores into the result with '
         'their conditions and loops, auxiliary collections with their initial values, returns) equal the reference table '
-        'wnstatic/rules/c18_checks.py, which was confirmed by reading each predicate against the check\'s description.'),
+        'wnstatic/rules/c18_checks.py, which was confirmed by reading each predicate against the check\'s description. R8 the exit status of `wn validate`: the verdict starts true, is only cleared by a lexicon with findings, and decides sys.exit.'),
     'decides': ['validator cannot raise KeyError / None errors', 'registry = documented table', 'reverse-relation involution',
                 'NOT NULL reference columns => add rejects', 'blank-text predicates', 'each check predicate = reviewed reference'],
     'not_decided': ['that the reviewed reference predicates themselves match the informal descriptions (confirmed by reading, not by analysis)'],
